@@ -126,6 +126,8 @@ Apply(m, op) ==
             IF Exists(m.use, LAMBDA u : u.p = a[1])
             THEN Ok([m EXCEPT !.use = UpdFirstDropRest(@, LAMBDA u : u.p = a[1], LAMBDA u : u, FALSE)])
             ELSE Ok([m EXCEPT !.use = Append(@, Use(a[1], "", ""))])
+      \* AddNewUse appends without looking (the caller knows the directory is new); a duplicate stays until SetUse / SortBlocks
+      [] op.name = "AddNewUse" -> Ok([m EXCEPT !.use = Append(@, Use(a[1], "", ""))])
       [] op.name = "DropUse" -> Ok([m EXCEPT !.use = Filter(@, LAMBDA u : u.p # a[1])])
       [] op.name = "SetUse" -> Ok(Dedup(SetUseList(m, op.l)))
 
